@@ -118,6 +118,7 @@ PROPERTIES = {
         "rules": [
             (A.A5_overlap_guard, "C07 guard shape, raise, retained atoms, set semantics"),
             (C.C_idx_replace, "C07 retained-atom map values are structure indices of this match"),
+            (C.C_unchanged_pairs, "C07 which atoms count as retained: equal element and coinciding coordinates only"),
         ],
         "decided": "the running deletion set is updated only if disjoint from this match's deletion set or the ignore flag is set; otherwise the dedicated exception is raised "
                    "before any structure is returned and no handler swallows it; retained atoms are excluded from the per-match deletion set and are exactly the atoms passed as "
